@@ -110,7 +110,11 @@ def _inject(args):
 
 # ------------------------------------------------------------------ Engine A: sessions
 
-def build(tf, dtfs, two, length, fill_at, fast, warm, emb, side='long'):
+def build(tf, dtfs, two, length, fill_at, fast, warm, emb, side='long', mode=''):
+    """mode: '' | 'liq' (isolated 100x: the position is liquidated shortly after the entry fills - the strategy is told from the
+    liquidation path) | 'near' (half of the position is closed by an exit a hair above the fill price: routed to MARKET, executed by
+    the end-of-minute flush) | 'second-only' (two symbols, the data-route timeframes are routed for the second symbol only but read
+    for both)"""
     base, tick, unit = emb
     T = TF()
     syms = S.SYMS[:2] if two else S.SYMS[:1]
@@ -135,10 +139,14 @@ def build(tf, dtfs, two, length, fill_at, fast, warm, emb, side='long'):
     reads = [[s, t] for s in syms for t in sorted({tf, '1m'} | set(dtfs), key=lambda x: T[x])]
     spec = {'tick': tick, 'unit': unit, 'side': side, 'enter': {'when': {'at': [max(0, (fill_at or 1) - 1) // T[tf]]} if fill_at is not None else 'flat', 'legs': [[1, -1]]},
             'on_open': {'sl': 'all', 'tp': 'all', 'sl_d': 6, 'tp_d': 2}, 'cancel_entry': False, 'reads': reads}
+    if mode == 'near':
+        spec['on_open'] = {'sl': 'all', 'sl_d': 6, 'tp': [[0.5, 0.01], [0.5, 2]]}
     routes = [{'symbol': s, 'timeframe': tf, 'spec': spec} for s in syms]
-    droutes = [[s, t] for s in syms for t in dtfs]
+    droutes = [[s, t] for s in (syms[1:] if mode == 'second-only' else syms) for t in dtfs]
     case = {'cfg': {'type': 'futures', 'fee': 0.0, 'leverage': 2, 'balance': 100 * (base + 80 * tick) * unit}, 'routes': routes, 'data_routes': droutes,
             'candles': candles, 'fast': fast, 'observe': 3}
+    if mode == 'liq':
+        case['cfg'].update({'leverage': 100, 'mode': 'isolated'})
     if warm:
         span = 1
         for t in [tf] + list(dtfs):
@@ -151,9 +159,10 @@ def build(tf, dtfs, two, length, fill_at, fast, warm, emb, side='long'):
 
 
 def _session(args):
-    tf, dtfs, two, length, fill_at, fast, warm, emb = args
-    case = build(tf, dtfs, two, length, fill_at, fast, warm, emb)
-    ident = {'tf': tf, 'data_tfs': list(dtfs), 'two_symbols': two, 'length': length, 'fill_at': fill_at, 'fast': fast, 'warmup_windows': warm, 'embedding': list(emb)}
+    tf, dtfs, two, length, fill_at, fast, warm, emb = args[:8]
+    mode = args[8] if len(args) > 8 else ''
+    case = build(tf, dtfs, two, length, fill_at, fast, warm, emb, mode=mode)
+    ident = {'tf': tf, 'data_tfs': list(dtfs), 'two_symbols': two, 'length': length, 'fill_at': fill_at, 'fast': fast, 'warmup_windows': warm, 'embedding': list(emb), 'mode': mode}
     S.C07['comparisons'] = 0
     S.C07['forming_seen'] = 0
     r = S.run_session(case)
@@ -171,6 +180,9 @@ def _session(args):
         _, sym, t, hook, now, clause, where, detail, nwin = ev
         sig = {'sim': sim, 'where': where, 'after_fill_in_window': fill_at is not None and fill_at % T[t] != T[t] - 1 and where == 'other-route',
                'before_first_window_completes': nwin <= 1 and not warm}
+        if mode:
+            sig['mode'] = mode
+            sig['hook'] = hook
         k = (clause, repr(sorted(sig.items())))
         if k in seen:
             continue
@@ -230,6 +242,12 @@ def sessions(ctx):
                 for off in offs:
                     jobs.append((tf, dtfs, False, length, span + off, fast, 0, emb))
             jobs.append((tf, dtfs, True, 2 * span, span + 1, fast, 0, emb))
+            # the strategy is told of a liquidation / of a fill made by the end-of-minute market flush / reads a timeframe that is
+            # only routed for the other symbol: entry fills at every offset of a window
+            for off in (range(span) if span <= 5 else sorted({0, 1, span // 2, span - 2, span - 1})):
+                jobs.append((tf, dtfs, False, 3 * span, span + off, fast, 0, emb, 'liq'))
+                jobs.append((tf, dtfs, False, 3 * span, span + off, fast, 0, emb, 'near'))
+                jobs.append((tf, dtfs, True, 3 * span, span + off, fast, 0, emb, 'second-only'))
             jobs.append((tf, dtfs, False, 2 * span + 1, span + 2, fast, 2, emb))
             jobs.append((tf, dtfs, True, 3 * span, span + 1, fast, 1, emb))
     # (2) every supported timeframe as trading and as data route
@@ -299,5 +317,5 @@ def replay(case, ctx):
         if case['helper'] == 'inject_warmup':
             return [Violation.from_json(v) for v in _inject((tuple(case['tfs']), case['length']))]
         return [Violation.from_json(v) for v in _helpers(([case['tf']], False))['viols'] if v['case'].get('length') == case['length']]
-    r = _session((case['tf'], tuple(case['data_tfs']), case['two_symbols'], case['length'], case['fill_at'], case['fast'], case['warmup_windows'], tuple(case.get('embedding') or ctx.embedding)))
+    r = _session((case['tf'], tuple(case['data_tfs']), case['two_symbols'], case['length'], case['fill_at'], case['fast'], case['warmup_windows'], tuple(case.get('embedding') or ctx.embedding), case.get('mode', '')))
     return [Violation.from_json(v) for v in r['viols']]
